@@ -50,6 +50,9 @@ THEOREMS = [
     'CpProofs.C20.C20_start_keeps_dead_worker',
     'CpProofs.C20.C20_graceful_replaces_dead_worker',
     'CpProofs.C20.C20_no_raise_no_dead_worker',
+    'CpProofs.C20.reachAll2_idle',
+    'CpProofs.C20.C20_overlapping_stop_crashes',
+    'CpProofs.C20.C20_overlapping_stop_breaks_one_worker',
     'CpProofs.C20.C20_admitted_trace_is_model_run',
     'CpProofs.C20.C20_admitted_M_safe',
     'CpProofs.C20.C20_admitted_B_safe',
@@ -301,8 +304,11 @@ class RunM(RunBase):
             self.s.before_start = lambda thr: setattr(thr, 'daemon', False)
         self.s.on_worker = lambda rec, thr: self.wstart.__setitem__(rec.tid, self.tick())
         self.seq = 0
+        self.rets2 = []            # returned calls of the second controller (overlapping calls, outside the quantifier)
         self.activate()
         self.s.spawn('c', self._ctl)
+        if case.get('calls2'):
+            self.s.spawn('k', self._ctl2)
 
     def on_write(self, obj, name, value):
         if name == 'thread' and obj is self.mon and value is not None and \
@@ -331,6 +337,12 @@ class RunM(RunBase):
             getattr(self.mon, call)()
             self.rets.append((k, call, begin, self.tick()))
 
+    def _ctl2(self):
+        for k, call in enumerate(self.case['calls2']):
+            begin = self.tick()
+            getattr(self.mon, call)()
+            self.rets2.append((k, call, begin, self.tick()))
+
     def _widx(self, obj):
         for i, w in enumerate(self.workers):
             if w is obj:
@@ -338,8 +350,8 @@ class RunM(RunBase):
         return None
 
     def model_tid(self, tid):
-        if tid == 'c':
-            return 'c'
+        if tid in ('c', 'k'):
+            return tid
         rec = self.s.recs[tid]
         i = self._widx(rec.thread)
         # the turn in which the callback raises is a turn of its own kind in the model (Tid.wx)
@@ -361,11 +373,60 @@ class RunM(RunBase):
                                        1 if (rec is not None and rec.done) else 0,
                                        1 if (rec is not None and rec.exc is not None) else 0, n))
         crec = self.s.recs['c']
-        return 'T=%s;R=%d;X=%d;W=%s' % (t, len(self.rets), 1 if crec.exc is not None else 0, '/'.join(ws))
+        krec = self.s.recs.get('k')
+        return 'T=%s;R=%d;X=%d;W=%s;R2=%d;X2=%d' % (t, len(self.rets), 1 if crec.exc is not None else 0, '/'.join(ws),
+                                                   len(self.rets2), 1 if (krec is not None and krec.exc is not None) else 0)
+
+
+def oracle_M_overlap(case, run):
+    """Two controller threads whose calls OVERLAP: outside the property's quantifier (one sequence of calls).
+    Demanded: nothing hangs, and what holds regardless - a worker cancelled by a stop()/graceful() that has
+    returned invokes the callback at most once more.  Recorded (not demanded): AttributeError on None in one of
+    the controllers, a worker that stays armed without being Monitor.thread (C20_overlapping_stop_*)."""
+    bad = []
+    recs = [run.s.recs['c'], run.s.recs['k']]
+    for r in recs:
+        # AttributeError: `self.thread` became None under the caller's feet; RuntimeError: both controllers
+        # call Thread.start() on the same task object
+        if r.exc is not None and not isinstance(r.exc, (AttributeError, RuntimeError)):
+            bad.append(('controller call raised %r' % (r.exc,), 'M2:controller_exception:%s' % type(r.exc).__name__))
+        elif r.exc is not None:
+            bad.append(('(overlapping calls) %r' % (r.exc,), 'INFO:overlap:%s' % type(r.exc).__name__))
+    if any(r.exc is None and not r.done for r in recs):
+        bad.append(('a controller call never returned although every thread was given its turns', 'M2:call_never_returns'))
+    if any(r.exc is not None or not r.done for r in recs):
+        return bad
+    allrets = sorted(run.rets + run.rets2, key=lambda r: r[3])
+    # a worker that has been cancelled (its flag is down at the end) invokes the callback at most once more after
+    # the last stop()/graceful() has returned
+    stops = [r[3] for r in allrets if r[1] in ('stop', 'graceful')]
+    if stops:
+        for w in run.wstart:
+            rec = run.s.recs[w]
+            if rec.thread.__dict__.get('running'):
+                continue
+            n = sum(1 for (t, who) in run.journal if who == w and t > max(stops))
+            if n > 1:
+                bad.append(('cancelled worker %s invoked the callback %d times after the last stop()/graceful() had '
+                            'returned' % (w, n), 'M2:callbacks_after_stop'))
+    tdone = max([r[3] for r in allrets] or [0])
+    active = sorted(w for w in run.wstart
+                    if sum(1 for (t, who) in run.journal if who == w and t > tdone) >= 2 and not run.s.recs[w].done)
+    if len(active) > 1:
+        bad.append(('(overlapping calls) %d workers keep invoking the callback: %s' % (len(active), active),
+                    'INFO:overlap:two_active_workers'))
+    cur = run.mon.__dict__.get('thread')
+    orphans = [w for w in active if run.s.recs[w].thread is not cur]
+    if orphans:
+        bad.append(('(overlapping calls) worker(s) %s keep running without being Monitor.thread' % orphans,
+                    'INFO:overlap:orphan_worker'))
+    return bad
 
 
 def oracle_M(case, run):
     """The property statement evaluated on what the real threads did (complete runs only)."""
+    if case.get('calls2'):
+        return oracle_M_overlap(case, run)
     bad = []
     crec = run.s.recs['c']
     if crec.exc is not None:
@@ -420,7 +481,7 @@ def tail_M(nworkers=4):
     # up to 4 calls, each of which may have to wait (join) for a non-daemon worker to run off
     t = []
     for _ in range(5):
-        t += ['c'] * 30
+        t += ['c'] * 30 + ['k'] * 12
         for w in range(1, nworkers + 1):
             t += ['w%d' % w] * 14
     return t
@@ -636,9 +697,10 @@ def oracle_B_interrupted(case, run):
         bad.append(('block() raised %r after a KeyboardInterrupt' % (m.exc,), 'B:exception:%s' % type(m.exc).__name__))
     elif kind == 's' and not isinstance(m.exc, SystemExit):
         bad.append(('SystemExit inside wait() was not passed on by block() (%r)' % (m.exc,), 'B:systemexit_swallowed'))
-    elif run.state_when_left != 'EXITING':
-        bad.append(('block() was interrupted and went on to its join loop / returned (%s) with the bus %s, not EXITING'
-                    % (run.left_by, run.state_when_left), 'B:block_returns_without_EXITING'))
+    elif run.t_exiting is None:
+        # (the second thread may rewrite the state afterwards: only "EXITING was reached" is demanded)
+        bad.append(('block() was interrupted and is over (%s), but the bus never was EXITING' % run.left_by,
+                    'B:block_returns_without_EXITING'))
     return bad
 
 
@@ -840,9 +902,10 @@ def full_sched(case):
 def scenario_key(case):
     k = case['k']
     if k == 'M':
-        return 'M %d %d %s %s%s%s' % (case['freq'], case['daemon'], ','.join(case['calls']) or '-',
-                                      'ar ' if case.get('ar') else '', 'op ' if case.get('op') else '',
-                                      'boom=%s' % (case.get('boom'),) if case.get('boom') else '')
+        return 'M %d %d %s %s%s%s%s' % (case['freq'], case['daemon'], ','.join(case['calls']) or '-',
+                                        'ar ' if case.get('ar') else '', 'op ' if case.get('op') else '',
+                                        'boom=%s' % (case.get('boom'),) if case.get('boom') else '',
+                                        ' ||' + ','.join(case['calls2']) if case.get('calls2') else '')
     if k == 'B':
         return 'B %s %s%s%s' % (','.join(case['calls']) or '-', case.get('foreign', ''), ' op' if case.get('op') else '',
                                 ' intr=' + case['intr'] if case.get('intr') else '')
@@ -852,7 +915,8 @@ def scenario_key(case):
 def model_line(case, trace):
     k = case['k']
     if k == 'M':
-        return 'AM %s %d %d %s %s' % (modes()['M'], case['freq'], case['daemon'], ','.join(case['calls']) or '-', trace)
+        return 'AM %s %d %d %s %s %s' % (modes()['M'], case['freq'], case['daemon'], ','.join(case['calls']) or '-',
+                                         ','.join(case.get('calls2') or ()) or '-', trace)
     if k == 'B':
         return 'AB %s %s %s' % (','.join(case['calls']) or '-', case.get('foreign') or '-', trace)
     return 'AT %s %d %s %s' % (modes()['T'], case['nstops'], '/'.join(case['scripts']) or '-', trace)
@@ -986,9 +1050,12 @@ def check_cases(ctx, cases, compare=True):
         else:
             ctx.count('T:threads=%d,stops=%d' % (len(case['scripts']), case['nstops']))
         for what, sig in bad:
+            if sig.startswith('INFO:'):
+                ctx.count(sig)      # recorded, not demanded (outside the property's quantifier)
+                continue
             ctx.count('oracle:' + sig)
             ctx.oracle_fail(case, what, sig)
-        done.append((case, trace, bool(bad)))
+        done.append((case, trace, any(not sig.startswith('INFO:') for _w, sig in bad)))
     if compare:
         comp = [(c, t) for (c, t, _b) in done if comparable(c)]
         answers = _model_parallel(ctx, [model_line(c, t) for c, t in comp])
@@ -1179,6 +1246,15 @@ def all_cases(ctx):
         for boom in ([1], [2], [1, 2]):
             cases += list(gen_M_systematic(calls, 1, 1 if boom != [2] else 0, range(6, 26, 3 if quick else 1),
                                            (4, 5, 9) if quick else range(0, 12), boom=boom))
+    # a SECOND controller thread whose stop()/graceful() overlaps the calls of the first (outside the quantifier:
+    # compared with the two-controller model, Lean witnesses C20_overlapping_stop_* replayed)
+    for calls, calls2 in ((['start', 'graceful', 'start'], ['stop']), (['start', 'graceful'], ['stop']),
+                          (['start', 'stop', 'start'], ['stop']), (['start', 'graceful'], ['graceful'])):
+        for a in range(8, 20, 3 if quick else 1):
+            for b in range(0, 9, 2 if quick else 1):
+                for a2 in ((4, 9, 30) if quick else (2, 4, 6, 9, 12, 30)):
+                    cases.append({'k': 'M', 'freq': 1, 'daemon': 1, 'calls': calls, 'calls2': calls2,
+                                  'sched': ['c'] * a + ['k'] * b + ['c'] * a2 + ['k'] * 9 + ['c'] * 12 + ['w2'] * 9})
     for calls in (MAIN_SEQ, ['start', 'graceful', 'stop'], ['start', 'stop', 'start']):
         cases += list(gen_M_two(calls, 1, ctx.rng.choice([0, 1]), ctx.rng, 40 if quick else 1500))
     # B
